@@ -126,16 +126,16 @@ ADDENDA = {
     "C04": "Also: a 7-event alphabet around one node closed at depth 7 (never-presented child / node between re-presentations), commands parked for a sleeping node as prefix, and every ordered pair of versions as two gateways in one process (the second must behave as if alone). Further: lines ending in nothing / LF / CR LF; the placeholder must exist at the instant an id answer is written.",
     "C05": "Also: a neighbour gateway under 2.2 in the process, wake announcements and application commands parked across version changes, and gateways entering their context over persistence files (8 stored gateway-node versions x 7 report sequences x version reply / gateway presentation). Further: a sleeping gateway node; contexts left through errors and entered again. Ninth wave: an 11-step behaviour script per version string compared with the selected protocol's own string.",
     "C06": "Also: ack=1 requests, application sends with the parked-command filter, restored sleeping nodes. Further: set + req of every value type 0-60; E2 scenarios in which the wait for the next message times out while a reaction is being written. Ninth wave: live flips of Config.metric; a reboot message received from a node. Tenth wave: every internal report followed by every reaction trigger.",
-    "C07": "Also: boundary and prefix ids, repeater node type, nodes whose own library version differs from the gateway's, value requests for parked keys, traffic equal to what the application sends, literal wake yield, capacity cases (up to 64 set + 29 internal commands). Further: a timeout pass (E2, C09 scenario) in which the wait that handles the wake is cancelled during a release write. Ninth wave: internal twins of set keys, value types without a name in the active protocol; a command superseded by a direct write must not be released. Tenth wave: wake announcements with the ack flag set.",
+    "C07": "Also: boundary and prefix ids, repeater node type, nodes whose own library version differs from the gateway's, value requests for parked keys, traffic equal to what the application sends, literal wake yield, capacity cases (up to 64 set + 29 internal commands). Further: a timeout pass (E2, C09 scenario) in which the wait that handles the wake is cancelled during a release write. Ninth wave: internal twins of set keys, value types without a name in the active protocol; a command superseded by a direct write must not be released. Tenth wave: wake announcements with the ack flag set. Eleventh wave: the same key sent with and without the ack flag.",
     "C08": "Also: value requests between wakes, the gateway reporting another 2.x release between a failed release and the retry, plain / custom TransportError classes, and send-during-flush scenarios with one failing write (via the C09 explorer). Further: timeouts of the listener during a release (shielded or abandoned writes). Ninth wave: twin commands, transport errors raised without arguments. Tenth wave: the library's MQTT transport with publishes failing at QoS 0 / 1.",
     "C09": "Also: internal commands, echoes, values the node itself reported, one failing flush write, one key replaced 3-4 times each during the previous write, senders that set the ack flag. Further: a 'timeout' event (the listener's wait is cancelled while a release write is in flight), value requests for parked keys racing with sends. Ninth wave: the node presents itself again before the wake; values that end in blanks.",
     "C10": "Also: application-sent presentation requests, leaving and re-entering the context with persistence, version switches among 2.x releases inside an episode. Further: episodes start at actual rejections; version / config / time requests from unregistered nodes. Ninth wave: id requests inside an episode; request writes abandoned by a timeout (E2). Tenth wave: gateway presentations with unusable version strings.",
     "C11": "Also: requests carrying a registered (possibly sleeping) node's own id, stray messages from unregistered ids, the unsaved persistence file loaded again mid-session (explicitly and by re-entering the context), and an E2 exploration of two concurrent listen() consumers with suspended / failing answers. Ninth wave: an id answer delivered although the write then reports an error.",
-    "C12": "Also: pre-wake traffic incl. reboot flag and echoes, send-during-flush scenarios (via the C09 explorer). Further: destinations restored as sleeping (also repeater type), overlapping sends in three successive event loops on one gateway object. Ninth wave: objects carrying some message attributes; twin items. Tenth wave: value requests for the held key before the wake.",
+    "C12": "Also: pre-wake traffic incl. reboot flag and echoes, send-during-flush scenarios (via the C09 explorer). Further: destinations restored as sleeping (also repeater type), overlapping sends in three successive event loops on one gateway object. Ninth wave: objects carrying some message attributes; twin items. Tenth wave: value requests for the held key before the wake. Eleventh wave: a transport write failing at each position of the release, then a second wake: every held line offered to the transport in one of the two.",
     "C13": "Also: one Persistence object per history (its own file read back by itself), explicit-save histories, loads by path (missing / invalid / valid) between saves, and a second save call overlapping a running one after 0-4 of its file operations. Further: lone-surrogate names; saves meeting five OSError classes at open / write (also after a short write) / close. Ninth wave: the file after each periodic save of a session spanning three save intervals. Tenth wave: registries filling the whole id space.",
     "C14": "Also: integers beyond 4300 digits, nesting of every depth inside a record, sequences of 3 loads by one object into registries that are empty / hold other nodes / hold the file's own nodes with other values, and two gateways on one file at the same time in three successive event loops. Further: the same Persistence objects across the event loops, load during the object's own save. Ninth wave: existing files while the file system refuses writes. Tenth wave: keys that differ from the ids inside, loaded repeatedly.",
     "C15": "Also: triples saved in a row by one object over a pre-existing file, a bystander file in the same directory, and sessions whose first save dies after loading a native / legacy-layout file. Further: the first open-for-writing of the dying save failing with one of three OSError classes.",
-    "C16": "Also: the real TCP / serial / MQTT transports through the seams the repo's tests patch (incl. a failing subscribe and a body read hitting EOF), a second context on the same object, a bystander gateway inside its own context, a 70-node file with a message handled mid-save, and the task inside the context cancelled from outside. Further: cancellation while the context is still being entered (connect waiting for the peer), per transport kind. Tenth wave: a context after one whose background saver died of a write error.",
+    "C16": "Also: the real TCP / serial / MQTT transports through the seams the repo's tests patch (incl. a failing subscribe and a body read hitting EOF), a second context on the same object, a bystander gateway inside its own context, a 70-node file with a message handled mid-save, and the task inside the context cancelled from outside. Further: cancellation while the context is still being entered (connect waiting for the peer), per transport kind. Tenth wave: a context after one whose background saver died of a write error. Eleventh wave: a body that stays inside for more than one save interval by its own timer (first and second context on one object).",
     "C17": "Also: reconnects on the same object after a mid-line end with a clean / faulty first disconnect, three transports side by side (a read waiting on a silent one), unusual characters on the write side. Further: eight OS-level error classes from write() and drain(); reads cancelled while waiting. Ninth wave: a second writer task (stream order = call order); format metacharacters in byte streams. Tenth wave: byte order marks.",
     "C18": "Also: 9 prefix pairs (leading / trailing slash, regex metacharacters, one topic tree for both directions), an explicit 'reader' event, reconnects, a read pending across a reconnect, an unread backlog across failed connection attempts, publish failure followed by receive failure. Further: waiting reads that time out and are repeated; payloads with Unicode line separators. Ninth wave: prefixes with % and {0}. Tenth wave: delivery metadata (packet id, QoS, retain).",
     "C19": "Also: heartbeat requests and unknown-node heartbeats, commands parked as prefix, heartbeat responses inside histories across the 2.2 boundary (sleeping flag masked), nodes restored as sleeping. Further: an E2 scenario (suspended writes, one timeout) explored schedule by schedule under both versions of each pair.",
